@@ -173,6 +173,17 @@ def run(ctx):
             deep = 'select ' + kind * depth + '1' + ')' * depth + ' from t'
             for o in ({'reindent': True}, {'reindent_aligned': True}, {'strip_whitespace': True}, {'strip_comments': True}, {'use_space_around_operators': True}):
                 try_format(ctx, deep, o, 'deep nesting')
+    # integer-valued options given as other int-convertible values (validation accepts them, so the filters must cope): x statements that make
+    # the filters read the option
+    INT_LIKE = ['3', ' 4 ', '20', 2.0, 3.7, True, False, '0', '1_0', b'2' if False else '07']
+    LISTY = ["select a, b, c, d, e from t where x in (1, 2, 3)", "select case when a then b when c then d else e end, f(a, b, c) from t", "select 'a long string literal', col from t"]
+    for k in ['indent_width', 'wrap_after', 'truncate_strings']:   # right_margin is not a documented option (its filter is a stub raising NotImplementedError)
+        for v in INT_LIKE:
+            for text in LISTY:
+                for extra in ({'reindent': True}, {'reindent_aligned': True}, {'reindent': True, 'comma_first': True}, {'reindent': True, 'indent_columns': True}, {}):
+                    o = dict(extra)
+                    o[k] = v
+                    try_format(ctx, text, o, 'int-like option values')
     # every kind of line break (LF, CRLF, bare CR, other str.splitlines() separators) x every output format x layout options:
     # filters and output wrappers decide "is this a line break" in different ways
     LB_TEXT = "select a,%s  b -- c%sfrom t%s%swhere x = 'p%sq' /* m%sn */ and y = 2;%sselect 2"
